@@ -442,7 +442,12 @@ def rewrite_method_chain(text, methods, fn, cnt, where):
                 if j >= n or toks[j].text != "(": ok = False; break
                 close = match_close(toks, j)
                 a = toks_text(toks[j + 1:close]).strip()
-                if a: args.append(a)
+                if a:
+                    try:
+                        a = rewrite_method_chain(a, methods, fn, cnt, where)   # a pipeline inside a closure handed to the pipeline
+                    except AnchorLost:
+                        pass
+                    args.append(a)
                 j = close + 1
             if ok:
                 p = len(out) - 1
@@ -1052,7 +1057,7 @@ class Unit:
                 optional = ln.startswith("//@insert?")
                 if optional:
                     ln = "//@insert" + ln[len("//@insert?"):]
-                m = re.match(r"//@insert\s+(before|after|inv|loop-end|loop-start|wrap)\s+`(.*)`\s*$", ln)
+                m = re.match(r"//@insert\s+(before|after|inv|loop-end|loop-start|wrap-call|wrap)\s+`(.*)`\s*$", ln)
                 if not m:
                     m = re.match(r"//@insert\s+(tail|start|end)()\s*$", ln)
                 if not m:
@@ -1251,7 +1256,16 @@ class Unit:
                     continue
                 text = "\n".join(x[1] for x in ins)
                 marker = "\n/*@ghost-begin %d*/\n%s\n/*@ghost-end*/\n" % (lno, text)
-                if mode == "wrap":
+                if mode == "wrap-call":
+                    # the anchor is the beginning of a call `f(a,`: the whole call up to its closing parenthesis is bound to a local (R9 for an inner expression)
+                    btoks = lex(new_body)
+                    qi = next((idx for idx, t in enumerate(btoks) if t.start >= a and t.kind == "p" and t.text == "("), None)
+                    if qi is None or btoks[qi].start >= b:
+                        raise AnchorLost("%s: wrap-call `%s`: no `(` in the anchor" % (path, anchor))
+                    e = btoks[match_close(btoks, qi)].end
+                    new_body = new_body[:a] + "{ let r__ = " + new_body[a:e] + ";" + marker + "r__ }" + new_body[e:]
+                    self.counts.add("R9.expression-bound-to-local")
+                elif mode == "wrap":
                     # R9 for an inner expression: `EXPR` -> `{ let r__ = EXPR; <ghost> r__ }` (same evaluation, the value is bound so that ghost code can follow it)
                     new_body = new_body[:a] + "{ let r__ = " + new_body[a:b] + ";" + marker + "r__ }" + new_body[b:]
                     self.counts.add("R9.expression-bound-to-local")
